@@ -48,7 +48,7 @@ def cases(tier, seed):
                         for tr in ([2.0 ** -30, 0.0], [2.0 ** 20, 0.0], [1.0, 2.0 ** 23]):
                             yield dict(kind="knn", sub=list(sub), k=kn, red=red, tr=tr)
                     if red == "mean":
-                        for rep in ("int_e", "int_n", "int"):
+                        for rep in ("int_e", "int_n", "int", "table_ne", "table_rev"):
                             yield dict(kind="knn", sub=list(sub), k=kn, red=red, rep=rep)
             for kn in range(1, k):
                 for proj in (False, True, 2, 3):
@@ -57,7 +57,7 @@ def cases(tier, seed):
                             continue
                         yield dict(kind="median_distance", sub=list(sub), k=kn, proj=proj, shape=shape)
                         if shape == "1d":
-                            yield dict(kind="median_distance", sub=list(sub), k=kn, proj=proj, shape=shape, rep=("int_e", "int_n", "int")[(kn + len(sub)) % 3])
+                            yield dict(kind="median_distance", sub=list(sub), k=kn, proj=proj, shape=shape, rep=("int_e", "int_n", "int", "table_ne", "table_rev")[(kn + len(sub) + sum(sub)) % 5])
             if k == 3 and sub == (0, 1, 2):
                 # k x (number of query points) beyond 2^20 and 2^21 (seed C15-12: queries processed in chunks)
                 for kn, shape in ((12, [300, 350]), (2, [1031, 1021]), (7, [1, 320000])):
@@ -196,6 +196,13 @@ def run(case, rec):
         n = n.astype(np.int32)
     elif rep == "int":
         e, n = e.astype(np.int64), n.astype(np.int64)
+    elif rep == "table_ne":
+        # views of ONE (N, 2) table with the columns in (northing, easting) order (round 8, seed C08-16)
+        tab = np.column_stack([n, e])
+        e, n = tab[:, 1], tab[:, 0]
+    elif rep == "table_rev":
+        tab = np.column_stack([e, n])[::-1].copy()
+        e, n = tab[::-1, 0], tab[::-1, 1]
     rec.trivial = npts < 2
     if kind == "knn":
         k, red = case["k"], case["red"]
